@@ -24,9 +24,14 @@ pub const CONTEXTS: &[(&str, &str, &str, bool, bool)] = &[
   ("else-branch", "if (c0) { } else {\n", "\n}", false, false),
   ("else-if-branch", "if (c0) { } else if (c1) {\n", "\n}", false, false),
   ("else-after-else-if", "if (c0) { } else if (c1) { } else {\n", "\n}", false, false),
-  ("for-body", "for (const k0 of ks) {\n", "\n}", false, false),
+  ("for-body", "for (const k0 of ks9) {\n", "\n}", false, false),
   ("while-body", "while (c0) {\n", "\n}", false, false),
   ("switch-case", "switch (s0) { case 1:\n", "\n}", false, false),
+  // a case that is allowed to fall through, by each spelling of the comment
+  ("switch-case-falls-through", "switch (s0) { case 0:\n", "\n/* falls through */\ncase 1: d9(); }", false, false),
+  ("switch-case-fallthrough-line", "switch (s0) { case 0: {\n", "\n}\n// fallthrough\ndefault: d9(); }", false, false),
+  ("switch-case-then-break", "switch (s0) { case 0:\n", "\nbreak;\ncase 1: d9(); }", false, false),
+  ("switch-case-test", "switch (s0) { case (() => {\n", "\n})(): d9(); }", false, false),
   ("switch-default", "switch (s0) { default: {\n", "\n} }", false, false),
   ("try-block", "try {\n", "\n} catch { }", false, false),
   ("catch-block", "try { } catch {\n", "\n}", false, false),
@@ -43,13 +48,13 @@ pub const CONTEXTS: &[(&str, &str, &str, bool, bool)] = &[
   ("object-getter", "const o1 = { get g() {\n", "\nreturn 1; } };", false, false),
   ("object-prop-fn", "const o2 = { f: function () {\n", "\n} };", false, false),
   ("iife", "(function () {\n", "\n})();", false, false),
-  ("call-arg", "foo(1, () => {\n", "\n});", false, false),
-  ("new-arg", "new Foo(function () {\n", "\n});", false, false),
+  ("call-arg", "fn9(1, () => {\n", "\n});", false, false),
+  ("new-arg", "new Ctor9(function () {\n", "\n});", false, false),
   ("default-param", "function d0(p9 = () => {\n", "\n}) { }", false, false),
   ("destructuring-default", "const { q9 = () => {\n", "\n} } = o9;", false, false),
   ("array-destructuring-default", "const [r9 = function () {\n", "\n}] = arr9;", false, false),
   ("template-substitution", "`t${() => {\n", "\n}}`;", false, false),
-  ("tagged-template", "tag`x${function () {\n", "\n}}`;", false, false),
+  ("tagged-template", "tag9`x${function () {\n", "\n}}`;", false, false),
   ("return-arg", "function r0() { return () => {\n", "\n}; }", false, false),
   ("throw-arg", "function t0() { throw function () {\n", "\n}; }", false, false),
   ("conditional-expr", "c0 ? () => {\n", "\n} : null;", false, false),
@@ -159,23 +164,47 @@ pub const SCOPE_LOCAL: &[&str] = &[
   "no-redeclare", "no-const-assign", "no-class-assign", "no-func-assign", "no-ex-assign", "no-shadow-restricted-names",
   "prefer-const", "no-unused-vars", "no-undef", "no-global-assign", "no-window", "no-window-prefix", "no-process-global",
   "no-node-globals", "no-deprecated-deno-api", "no-console", "no-eval", "no-obj-calls", "no-new-symbol",
-  "no-prototype-builtins", "prefer-primordials", "no-var",
+  "no-prototype-builtins", "prefer-primordials", "no-var", "no-import-assign",
   // not scope rules, but context-free in the same way: character-level and comment rules (the construct carries its
   // characters and comments along), and rules about a whole declaration the construct brings along
   "prefer-ascii", "no-irregular-whitespace", "ban-ts-comment", "ban-untagged-todo", "camelcase",
   "adjacent-overload-signatures", "require-await", "no-boolean-literal-for-arguments",
 ];
 
-fn self_contained(src: &str, ext: &str) -> bool {
+fn self_contained(src: &str, ext: &str, rule: &str) -> bool {
   use deno_ast::swc::ast::{Decl, ModuleItem, Stmt};
   let crate::d_scan::Full::Ok(ps, _) = crate::d_scan::lint_full(&mk_linter(vec![], &Words::default()), src, ext, &Cfg::default()) else {
     return false;
   };
-  let ok = |s: &Stmt| matches!(s, Stmt::Decl(Decl::Fn(_)) | Stmt::Decl(Decl::Class(_)) | Stmt::Decl(Decl::Var(_)) | Stmt::Expr(_) | Stmt::Empty(_));
+  // for the rules about switch statements a whole switch statement is an enclosure of its own, too
+  let switch_rule = ["no-fallthrough", "no-duplicate-case", "no-case-declarations"].contains(&rule);
+  let ok = |s: &Stmt| matches!(s, Stmt::Decl(Decl::Fn(_)) | Stmt::Decl(Decl::Class(_)) | Stmt::Decl(Decl::Var(_)) | Stmt::Expr(_) | Stmt::Empty(_)) || (switch_rule && matches!(s, Stmt::Switch(_)));
   match ps.program_ref() {
     deno_ast::ProgramRef::Module(m) => m.body.iter().all(|i| matches!(i, ModuleItem::Stmt(s) if ok(s))),
     deno_ast::ProgramRef::Script(sc) => sc.body.iter().all(ok),
   }
+}
+
+/// a snippet's leading single-line `import` declarations (they stay at the top of the file) and the rest (the part that is
+/// embedded)
+fn split_prelude(src: &str) -> (String, String) {
+  let mut prel = String::new();
+  let mut rest = src;
+  loop {
+    let t = rest.trim_start();
+    if !t.starts_with("import ") {
+      break;
+    }
+    let Some(nl) = t.find('\n') else { break };
+    let line = &t[..nl];
+    if !line.trim_end().ends_with(';') || line.matches(';').count() != 1 {
+      break;
+    }
+    prel.push_str(line);
+    prel.push('\n');
+    rest = &t[nl + 1..];
+  }
+  (prel, rest.to_string())
 }
 
 fn embeddable(src: &str) -> bool {
@@ -296,10 +325,10 @@ pub fn run(args: &Args) {
   let mut linters: BTreeMap<String, deno_lint::linter::Linter> = BTreeMap::new();
   for (i, sn) in corpus.iter().enumerate() {
     let closed_class = CLOSED_WHEN_SELF_CONTAINED.contains(&sn.rule.as_str());
-    if !all.contains(&sn.rule) || (excluded.contains(&sn.rule.as_str()) && !closed_class && !SCOPE_LOCAL.contains(&sn.rule.as_str())) || !embeddable(&sn.src) {
+    if !all.contains(&sn.rule) || (excluded.contains(&sn.rule.as_str()) && !closed_class && !SCOPE_LOCAL.contains(&sn.rule.as_str())) || !embeddable(&split_prelude(&sn.src).1) {
       continue;
     }
-    if closed_class && !self_contained(&sn.src, "ts") {
+    if closed_class && !self_contained(&sn.src, "ts", &sn.rule) {
       continue;
     }
     let l = linters.entry(sn.rule.clone()).or_insert_with(|| mk_linter(rules_by_codes(&[sn.rule.clone()]), &Words::default()));
@@ -378,9 +407,14 @@ pub fn run(args: &Args) {
         names.insert(0, "sibling-of-same-rule");
       }
     }
-    let with_s = format!("{}{}{}", pre, sn.src, suf);
-    let with_neutral = format!("{};{}", pre, suf);
-    let base = match lint(l, &sn.src, ext) {
+    let (prel, body) = split_prelude(&sn.src);
+    if !prel.is_empty() {
+      out.count("import-prelude-kept-on-top");
+    }
+    let pl = prel.len();
+    let with_s = format!("{}{}{}{}", prel, pre, body, suf);
+    let with_neutral = format!("{}{};{}", prel, pre, suf);
+    let base = match lint(l, &format!("{}{}", prel, body), ext) {
       Outcome::Ok(d) => d,
       _ => continue,
     };
@@ -395,14 +429,20 @@ pub fn run(args: &Args) {
         }
         let k = pre.len() as isize;
         let strip = |d: &D| (d.start, d.end, d.code.clone());
-        let mut expected: Vec<_> = base.iter().map(|d| strip(&d.shift(k))).collect();
-        // diagnostics the bare context produces (positions after the hole move by len(S) - 1)
-        let delta = sn.src.len() as isize - 1;
+        // findings inside the import prelude stay where they are, those of the construct move by len(context prefix)
+        let mut expected: Vec<_> = base.iter().map(|d| if d.start.map(|s| s < pl).unwrap_or(true) && pl > 0 { strip(d) } else { strip(&d.shift(k)) }).collect();
+        // diagnostics the bare context produces (positions after the hole move by len(S) - 1); what it says about the
+        // prelude is not the context's doing
+        let delta = body.len() as isize - 1;
+        let hole = pl as isize + k;
         for d in &dn {
+          if pl > 0 && d.start.map(|s| s < pl).unwrap_or(false) {
+            continue;
+          }
           let mut dd = d.clone();
-          if d.start.map(|s| s as isize > k).unwrap_or(false) {
+          if d.start.map(|s| s as isize > hole).unwrap_or(false) {
             dd = d.shift(delta);
-          } else if d.end.map(|e| e as isize > k).unwrap_or(false) {
+          } else if d.end.map(|e| e as isize > hole).unwrap_or(false) {
             dd.end = d.end.map(|e| (e as isize + delta) as usize);
           }
           expected.push(strip(&dd));
